@@ -166,7 +166,10 @@ pub fn execute(s: &StatScn) -> RunOutcome {
                     items.push((a, id, true));
                 } else {
                     let a = h.usize(s.assets_b);
-                    let r = env_b.place(a, true, 1 + h.below(5) as u32, 9, Some(50 + h.below(40) as u32)).map_err(|e| mk("panic", step, "place", "Ok".into(), e))?;
+                    // (a fifth of the new orders are market orders: no resting asks, so they are cancelled / rejected at their
+                    // position - their arrival time pins it like that of any other new order)
+                    let price = if h.chance(0.2) { None } else { Some(50 + h.below(40) as u32) };
+                    let r = env_b.place(a, true, 1 + h.below(5) as u32, 9, price).map_err(|e| mk("panic", step, "place", "Ok".into(), e))?;
                     items.push((r.0, r.1, false));
                 }
             }
